@@ -4,6 +4,7 @@ with the rounding and clamping of the portable kernels (C10, C18).
     src/convolution/vertical_u8/{sse4,avx2}.rs  vs  vertical_u8/native.rs     (generic: U8, U8x2, U8x3, U8x4)
     src/convolution/u8x4/{sse4,avx2}.rs          vs  u8x4/native.rs
     src/convolution/u8x3/{sse4,avx2}.rs          vs  u8x3/native.rs
+    src/convolution/u8x2/{sse4,avx2}.rs          vs  u8x2/native.rs
 
 Method (docs/BUILDER_K9.md): Kani executes the REAL kernel text; the x86 instructions it cannot run are replaced (kani::stub)
 by the instruction models of contracts/simd_models.rs (assumed contract on the hardware, cross-checked on the host CPU by
@@ -114,14 +115,14 @@ def gen_taps_sparse(n, p, seed, drift):
     dense tap and one dense tap that makes the sum 2^p + drift, placed by a seed-dependent permutation.  The product pixel x 2^j is a plain
     shift for the SAT solver, which keeps long windows tractable (dense 12 - 16 tap windows: no answer in 25 min per 8 destination bytes),
     while every tap position still carries a distinct coefficient (a permuted / skipped / repeated tap changes the result)."""
-    assert 6 <= n <= p + 2
+    assert 6 <= n <= 3 * p
     pw = []
     for j in range(n - 2):
-        v = 1 << (p - 1 - j)
-        pw.append(-v if j % 3 == 2 else v)
+        v = 1 << (p - 1 - j % p)                         # more than p taps: the powers repeat
+        pw.append(-v if (j % 3 == 2) != ((j // p) % 2 == 1) else v)      # repeated powers come with the opposite sign pattern
     a = 301 + 2 * (seed % 97)
     b = (1 << p) + drift - sum(pw) - a
-    while b == 0 or (abs(b) & (abs(b) - 1)) == 0 or abs(b) in [abs(v) for v in pw]:
+    while b == 0 or (abs(b) & (abs(b) - 1)) == 0 or abs(b) in [abs(v) for v in pw] or b == a:
         b += 2
     taps = pw + [a, b]
     x = (seed * 2654435761 + 977) & 0x7FFFFFFF
@@ -129,7 +130,7 @@ def gen_taps_sparse(n, p, seed, drift):
         x = (x * 1103515245 + 12345) & 0x7FFFFFFF
         j = (x >> 8) % (i + 1)
         taps[i], taps[j] = taps[j], taps[i]
-    assert all(-32768 <= v <= 32767 for v in taps) and len(set(taps)) == n
+    assert all(-32768 <= v <= 32767 for v in taps) and (len(set(taps)) == n or n > p + 2)
     assert sum(abs(v) for v in taps) < (4 << p) and sum(v for v in taps if v > 0) >= (1 << p)
     return taps
 
@@ -183,6 +184,57 @@ K9S = dict(file="src/lib.rs", name="fv_k9s", vis="pub(crate) ", code="""
     }
 """)
 
+# The intrinsics of NATIVE_OK are not stubbed: Kani runs their std::arch bodies.  This module ties that choice down: for every input the std::arch body
+# (as executed by Kani) equals the model of simd_models.rs - which the self-test in turn compares with the hardware.
+K9N = dict(file="src/lib.rs", name="fv_k9n", code="""
+    use core::arch::x86_64::*;
+    use core::mem::transmute;
+    use crate::fv_simd::*;
+    fn eq128(a: __m128i, b: __m128i) -> bool { let (a, b): ([u64; 2], [u64; 2]) = unsafe { (transmute(a), transmute(b)) }; (a[0] == b[0]) & (a[1] == b[1]) }
+    fn eq256(a: __m256i, b: __m256i) -> bool { let (a, b): ([u64; 4], [u64; 4]) = unsafe { (transmute(a), transmute(b)) }; (a[0] == b[0]) & (a[1] == b[1]) & (a[2] == b[2]) & (a[3] == b[3]) }
+    fn any128() -> __m128i { unsafe { transmute(kani::any::<[u64; 2]>()) } }
+    fn any256() -> __m256i { unsafe { transmute(kani::any::<[u64; 4]>()) } }
+
+    #[kani::proof]
+    fn k9_native_srai() {
+        let a = any128();
+        let b = any256();
+        kani::cover!(true);
+        unsafe {
+""" + "".join("            assert!(eq128(_mm_srai_epi32::<%d>(a), mm_srai_epi32::<%d>(a)));\n            assert!(eq256(_mm256_srai_epi32::<%d>(b), mm256_srai_epi32::<%d>(b)));\n" % (p, p, p, p) for p in range(12, 22)) + """        }
+    }
+
+    #[kani::proof]
+    fn k9_native_lanes() {
+        let a = any256();
+        let b = any128();
+        kani::cover!(true);
+        unsafe {
+            assert!(eq256(_mm256_inserti128_si256::<1>(a, b), mm256_inserti128_si256::<1>(a, b)));
+            assert!(eq256(_mm256_inserti128_si256::<0>(a, b), mm256_inserti128_si256::<0>(a, b)));
+            assert!(eq256(_mm256_insertf128_si256::<1>(a, b), mm256_insertf128_si256::<1>(a, b)));
+            assert!(eq256(_mm256_insertf128_si256::<0>(a, b), mm256_insertf128_si256::<0>(a, b)));
+            assert!(eq128(_mm256_extracti128_si256::<0>(a), mm256_extracti128_si256::<0>(a)));
+            assert!(eq128(_mm256_extracti128_si256::<1>(a), mm256_extracti128_si256::<1>(a)));
+            assert!(eq128(_mm256_castsi256_si128(a), mm256_castsi256_si128(a)));
+            // cast xmm -> ymm as the kernels use it: low half kept, the undefined upper half overwritten by VINSERT*128 before use
+            assert!(eq128(_mm256_extracti128_si256::<0>(_mm256_castsi128_si256(b)), b));
+            assert!(eq256(_mm256_inserti128_si256::<1>(_mm256_castsi128_si256(b), b), mm256_inserti128_si256::<1>(mm256_castsi128_si256(b), b)));
+            assert!(eq256(_mm256_insertf128_si256::<1>(_mm256_castsi128_si256(b), b), mm256_insertf128_si256::<1>(mm256_castsi128_si256(b), b)));
+            assert!(_mm_extract_epi64::<0>(b) == mm_extract_epi64::<0>(b));
+            assert!(_mm_extract_epi64::<1>(b) == mm_extract_epi64::<1>(b));
+        }
+    }
+""")
+K9N_HS = [
+    dict(name="k9_native_srai", kind="bounded", covers=1, timeout=600, props=["C02"],
+         bound="shift counts 12 ..= 21 (every PRECISION the dispatcher instantiates for a regular filter), ALL vector values",
+         claim="_mm_srai_epi32 / _mm256_srai_epi32 as executed by Kani (std::arch body, not stubbed in K9) == the PSRAD model of simd_models.rs"),
+    dict(name="k9_native_lanes", kind="complete", covers=1, timeout=600, props=["C02"],
+         claim="_mm256_inserti128_si256, _mm256_insertf128_si256, _mm256_extracti128_si256, _mm256_castsi256_si128, _mm256_castsi128_si256 (low half, and in the cast + insert "
+               "pattern of the kernels), _mm_extract_epi64 as executed by Kani (std::arch bodies, not stubbed in K9) == their models of simd_models.rs, ALL vector values"),
+]
+
 SPARE = 5
 PAD = 3
 PROPS = ["C02", "C03", "C10", "C18"]
@@ -225,9 +277,9 @@ VERT_COMMON = """
 # Window lengths: 2 = the two-rows loop alone, 3 = loop + odd last row, 1 = odd last row alone, 5 = two loop iterations + odd row.
 # One window per harness for the 47-component row (cost: 5 - 15 s of SAT time per destination byte).
 VERT_CASES = [
-    ("u8_w47_t2", "U8", 1, 47, 1, 3, 14, [(1, 2)]),          # 32 + 8 + 4 + 3 components
-    ("u8_w47_t3", "U8", 1, 47, 0, 3, 14, [(0, 3)]),
-    ("u8_w47_t1", "U8", 1, 47, 2, 3, 12, [(2, 1)]),
+    ("u8_w47_t2", "U8", 1, 47, 1, 3, 14, [(1, [12288, 4099])]),          # 32 + 8 + 4 + 3 components; taps with few bits set (cheap for SAT), sum 2^14 + 3
+    ("u8_w47_t3", "U8", 1, 47, 0, 3, 14, [(0, [-2048, 16448, 1979])]),   # sum 2^14 - 5
+    ("u8_w47_t1", "U8", 1, 47, 2, 3, 12, [(2, [4099])]),
     ("u8x4_w3", "U8x4", 4, 3, 1, 5, 12, [(0, 5), (3, [32767, 32767])]),    # 8 + 4; second window: saturation of PACKSSDW / PACKUSWB against the clamp of clip
     ("u8x3_w5", "U8x3", 3, 5, 0, 3, 13, [(0, 3)]),           # 8 + 4 + 3
     ("u8x2_w9", "U8x2", 2, 9, 2, 3, 15, [(1, 2)]),           # 8 + 8 + 2
@@ -243,7 +295,7 @@ def call_groups(run, p, groups, cover_first=True):
             let mut d_nat = stale;
             %s
 %s        }
-""" % (p, rs_windows(g), run, "            kani::cover!(d_simd[0] > 250);\n            kani::cover!(d_simd[0] == 0);\n" if gi == 0 and cover_first else "")
+""" % (p, rs_windows(g), run, ("            kani::cover!(d_simd[0] > %d);\n            kani::cover!(d_simd[0] == 0);\n" % (250 if p <= 15 else 2)) if gi == 0 and cover_first else "")
     return calls
 
 
@@ -307,7 +359,7 @@ HORIZ_COMMON = """
             let p = d_simd.as_mut_ptr() as *mut %(ty)s;
             let rows: [&mut [%(ty)s]; 4] = unsafe { [core::slice::from_raw_parts_mut(p, dw), core::slice::from_raw_parts_mut(p.add(dw), dw),
                                                    core::slice::from_raw_parts_mut(p.add(2 * dw), dw), core::slice::from_raw_parts_mut(p.add(3 * dw), dw)] };
-            unsafe { horiz_convolution_four_rows::<14>(src.rows, rows, n) };
+            unsafe { horiz_convolution_four_rows%(tf)s(src.rows, rows, n) };
         }
         crate::convolution::%(d)s::native::horiz_convolution(src, &mut dst_image(d_nat, dw as u32, 4), 0, n);
         same_output(dw * 4 * %(cc)d, stale, d_simd, d_nat);
@@ -318,15 +370,16 @@ HORIZ_COMMON = """
         let dw = n.chunks().len();
         {
             let row: &mut [%(ty)s] = unsafe { core::slice::from_raw_parts_mut(d_simd.as_mut_ptr() as *mut %(ty)s, dw) };
-            unsafe { horiz_convolution_one_row::<14>(src.rows[0], row, n) };
+            unsafe { horiz_convolution_one_row%(tf)s(src.rows[0], row, n) };
         }
         crate::convolution::%(d)s::native::horiz_convolution(src, &mut dst_image(d_nat, dw as u32, 1), 0, n);
         same_output(dw * %(cc)d, stale, d_simd, d_nat);
     }
 """
 
-HSW = 16  # source width of the horizontal cases
+HSW = 16  # source width of the horizontal cases (u8x2: 32)
 HUGE = (14, [32767, 32767])          # saturation of PACKSSDW / PACKUSWB against the clamp of Normalizer16::clip
+HUGE32 = (30, [32767, 32767])
 HORIZ = dict(
     # u8x4: tap stages 4 / 2 / 1 (four rows), 8 / 4 / 2 / 1 (one row; AVX2: < 8 taps -> 2 / 1 only, >= 8 taps -> 8 / 4 with the halved initial accumulator, then 2 / 1).
     # Loads are whole pixels (16 / 8 / 4 bytes = 4 / 2 / 1 pixels): windows ending at the last pixel of the row guard the row end.
@@ -340,8 +393,14 @@ HORIZ = dict(
               four=[(0, 7), (8, 8), (13, 3), (11, 4), (10, 5), (14, 2)],
               one=[(0, 16), (6, 10), (7, 9), (3, 12), (0, 7), (13, 3), (8, 8), (11, 4), (10, 5), (14, 2)],
               one_per=2),
+    # u8x2 (precision is a run-time value here): tap stages 8 / 4 / 2 / 1 (four rows), 8 / 4 / up to 3 single taps (one row; AVX2: >= 16 taps -> 16 / 8 first,
+    # with a quarter of the rounding constant per accumulator lane).  Loads are whole pixels (16 / 8 / 4 / 2 bytes = 8 / 4 / 2 / 1 pixels).
+    u8x2=dict(ty="U8x2", cc=2, sw=32, tf="",
+              four=[(17, 15), (23, 9), (29, 3), (26, 6), (31, 1), HUGE32],
+              one=[(17, 15), (23, 9), (30, 2), (26, 6), (31, 1), HUGE32, (1, 31), (8, 24)],
+              one_per=1),
 )
-DISPATCH_CASES = [("h5", 5, 1, 6), ("h6", 6, 0, 6), ("h3", 3, 1, 4)]      # (case, dst height, first source row, source height)
+DISPATCH_CASES = [("h5", 5, 1, 6, 14), ("h6", 6, 0, 6, 12), ("h3", 3, 1, 4, 21)]      # (case, dst height, first source row, source height, precision)
 PRECISIONS = list(range(12, 22))
 
 
@@ -359,10 +418,11 @@ def horiz_module(d, isa):
     F = "src/convolution/%s/%s.rs" % (d, isa)
     info = HORIZ[d]
     ty, cc = info["ty"], info["cc"]
+    HSW = info.get("sw", 16)
     s4, u4 = stubs_for([_fn_body(F, "horiz_convolution_four_rows")])
     s1, u1 = stubs_for([_fn_body(F, "horiz_convolution_one_row")])
     sb, ub = stubs_for([_fn_body(F, "horiz_convolution_four_rows"), _fn_body(F, "horiz_convolution_one_row")])
-    code = HORIZ_COMMON % dict(ty=ty, d=d, cc=cc)
+    code = HORIZ_COMMON % dict(ty=ty, d=d, cc=cc, tf=info.get("tf", "::<14>"))
     hs = []
     # --- four rows, direct
     groups = groups_of(14, info["four"], 300)
@@ -385,37 +445,43 @@ def horiz_module(d, isa):
                        bound="%s, 1 source row of %d pixels (the tail of its allocation); precision 14, windows (start, taps) = %s; ALL pixel values; stale destination arbitrary" % (ty, HSW, "; ".join(rs_windows(g) for g in gs)),
                        claim="%s::%s::horiz_convolution_one_row::<14> == %s::native::horiz_convolution on the same row, byte for byte; no access outside the source row; spare destination bytes untouched" % (d, isa, d)))
     # --- dispatcher: row routing for heights 5, 6, 3
-    g = groups_of(14, [(HSW - 2, 2), (HSW - 1, 1)], 600)
-    for case, dh, off, sh in DISPATCH_CASES:
+    for case, dh, off, sh, p in DISPATCH_CASES:
+        g = groups_of(p, [(HSW - 2, 2), (HSW - 1, 1)], 600)
         name = "k9_%s_%s_dispatch_%s" % (d, isa, case)
         dn = 2 * dh * cc + SPARE
-        code += harness_text(name, sb, src_decl(ty, cc, HSW, sh), dn, call_groups("run::<%d>(&src, %d, %d, &n, &stale, &mut d_simd, &mut d_nat);" % (sh, dh, off), 14, g))
+        code += harness_text(name, sb, src_decl(ty, cc, HSW, sh), dn, call_groups("run::<%d>(&src, %d, %d, &n, &stale, &mut d_simd, &mut d_nat);" % (sh, dh, off), p, g))
         hs.append(dict(name=name, kind="bounded", covers=2, timeout=1500, props=PROPS,
-                       bound="%s source %dx%d, destination rows = source rows %d .. %d (%d four-row pass(es) + %d leftover row(s)); precision 14, windows %s; ALL pixel values" % (ty, HSW, sh, off, off + dh, dh // 4, dh % 4, rs_windows(g[0])),
+                       bound="%s source %dx%d, destination rows = source rows %d .. %d (%d four-row pass(es) + %d leftover row(s)); precision %d, windows %s; ALL pixel values" % (ty, HSW, sh, off, off + dh, dh // 4, dh % 4, p, rs_windows(g[0])),
                        claim="%s::%s::horiz_convolution == native: the four-row passes and the `height %% 4` leftover rows take the right source rows and write the right destination rows" % (d, isa)))
-    # --- dispatcher: every precision the dispatcher instantiates for a regular filter
-    name = "k9_%s_%s_precisions" % (d, isa)
-    dh, off, sh = 5, 0, 5
+    # --- dispatcher: every precision the dispatcher instantiates for a regular filter.  One destination row (the one-row variant only): what is checked is
+    # that arm p of constify_imm8! exists and runs the kernels with PRECISION = p.  (Five rows x five precisions in one harness were measured: 6 - 13 GB.)
+    # The four-rows variant at other precisions than 14: dispatch_h6 (12) and dispatch_h3 (21).
+    dh, off, sh = 1, 0, 1
     dn = dh * cc + SPARE
+    name = "k9_%s_%s_precisions" % (d, isa)
     calls = ""
     for p in PRECISIONS:
-        calls += call_groups("run::<%d>(&src, %d, %d, &n, &stale, &mut d_simd, &mut d_nat);" % (sh, dh, off), p, groups_of(p, [(HSW - 3, 3)], 500 + p), cover_first=(p == PRECISIONS[0]))
+        t0 = min(1 << (p - 1), 1 << 14) + 1
+        wins = [[(HSW - 2, [t0, -((t0 - 1) // 4)])]]
+        calls += call_groups("run::<%d>(&src, %d, %d, &n, &stale, &mut d_simd, &mut d_nat);" % (sh, dh, off), p, wins, cover_first=False)
+    calls += "        kani::cover!(r0[%d] == 255 && r0[%d] == 0);\n        kani::cover!(r0[%d] == 7);\n" % (PAD + (HSW - 2) * cc, PAD + (HSW - 1) * cc, PAD + (HSW - 1) * cc)
     code += harness_text(name, sb, src_decl(ty, cc, HSW, sh), dn, calls)
     hs.append(dict(name=name, kind="bounded", covers=2, timeout=1500, props=PROPS,
-                   bound="%s source %dx%d, destination 1x%d; for EVERY precision 12 ..= 21 one window of 3 taps ending at the last pixel (taps generated per precision); ALL pixel values" % (ty, HSW, sh, dh),
-                   claim="%s::%s::horiz_convolution == native for every const PRECISION instantiation 12 ..= 21 of the dispatcher (constify_imm8!), four-row and one-row variants" % (d, isa)))
+                   bound="%s source %dx1, destination 1x1; for EVERY precision 12 ..= 21 one window of 2 taps [min(2^(p-1), 2^14) + 1, -min(2^(p-3), 2^12)] ending at the last pixel; ALL pixel values" % (ty, HSW),
+                   claim="%s::%s::horiz_convolution == native for every arm 12 ..= 21 of the dispatcher (constify_imm8!) - the arm exists and instantiates the kernels with PRECISION = p (one-row variant)" % (d, isa)))
     return (dict(file=F, name="fv_k9", code=code), hs,
-            [dict(file=F, fn="horiz_convolution"), dict(file=F, fn="horiz_convolution_p"), dict(file=F, fn="horiz_convolution_four_rows"), dict(file=F, fn="horiz_convolution_one_row")], set(u4) | set(u1) | set(ub))
+            [dict(file=F, fn=f) for f in ["horiz_convolution"] + (["horiz_convolution_p"] if "tf" not in info else ["set_dst_pixel"]) + ["horiz_convolution_four_rows", "horiz_convolution_one_row"]],
+            set(u4) | set(u1) | set(ub))
 
 
-_mods, _hs, _fns, _used = [SUPPORT, FV_SIMD, K9S], [], [], set()
+_mods, _hs, _fns, _used = [SUPPORT, FV_SIMD, K9S, K9N], list(K9N_HS), [], set()
 for _isa in ("sse4", "avx2"):
     _m, _h, _f, _u = vert_module(_isa)
     _mods.append(_m)
     _hs += _h
     _fns += _f
     _used |= set(_u)
-for _d in ("u8x4", "u8x3"):
+for _d in ("u8x4", "u8x3", "u8x2"):
     for _isa in ("sse4", "avx2"):
         _m, _h, _f, _u = horiz_module(_d, _isa)
         _mods.append(_m)
